@@ -571,6 +571,8 @@ func (m *poolModel) connect(id string, connID int, isHost bool, kind, payout str
 	m.open[connID] = true
 	if isHost {
 		m.current[id] = connID
+	} else {
+		delete(m.current, id) // a node that registers as a light client is no connected host any more
 	}
 	if m.cfg.NoManager || m.cfg.Min == nil || isHost {
 		return false, nil
